@@ -72,6 +72,7 @@ type loop struct {
 	rc       *raftexample.RaftNode
 	cancel   context.CancelFunc
 	idx      uint64
+	log      []raftpb.Entry // every entry committed through this loop, in order
 }
 
 func newLoop() *loop {
@@ -113,7 +114,9 @@ func (l *loop) exec(args [][]byte) (raw []byte, v model.Val, status string) {
 		select {
 		case p := <-l.proposeC:
 			l.idx++
-			done, ok := l.rc.VerifPublish([]raftpb.Entry{{Type: raftpb.EntryNormal, Index: l.idx, Term: 1, Data: p.ToBytes()}})
+			ent := raftpb.Entry{Type: raftpb.EntryNormal, Index: l.idx, Term: 1, Data: p.ToBytes()}
+			l.log = append(l.log, ent)
+			done, ok := l.rc.VerifPublish([]raftpb.Entry{ent})
 			if !ok {
 				return nil, model.Val{}, "publish-failed"
 			}
@@ -137,6 +140,56 @@ func (l *loop) exec(args [][]byte) (raw []byte, v model.Val, status string) {
 				return nil, model.Val{}, "panic"
 			}
 			if time.Now().After(deadline) {
+				return nil, model.Val{}, "timeout"
+			}
+		}
+	}
+}
+
+// execDuringReplay: the node has just restarted (l is a fresh loop: new Manager, new callback table,
+// new connection handler) and its log - old, the entries of its previous life - has not been
+// re-applied yet.  The client's command is turned into a proposal first (its handler now waits for
+// the result), then the old log and the new entry are published in one batch, as replayWAL followed
+// by the first Ready does.
+func (l *loop) execDuringReplay(old []raftpb.Entry, args [][]byte) (raw []byte, v model.Val, status string) {
+	l.conn.Send(model.EncodeCommand(args))
+	deadline := time.Now().Add(5 * time.Second)
+	ents := append([]raftpb.Entry{}, old...)
+	for {
+		select {
+		case p := <-l.proposeC:
+			ents = append(ents, raftpb.Entry{Type: raftpb.EntryNormal, Index: uint64(len(ents) + 1), Term: 1, Data: p.ToBytes()})
+			done, ok := l.rc.VerifPublish(ents)
+			if !ok {
+				return nil, model.Val{}, "publish-failed"
+			}
+			if done != nil {
+				select {
+				case <-done:
+				case <-time.After(5 * time.Second):
+					return nil, model.Val{}, "apply-timeout"
+				}
+			}
+			return l.conn.TakeReply(5 * time.Second)
+		case <-time.After(200 * time.Microsecond):
+			if len(l.conn.Output()) > 0 || l.conn.Closed() || rt.HasFreePanics() || time.Now().After(deadline) {
+				// answered without a proposal: replay the log anyway, then take the direct reply
+				if done, ok := l.rc.VerifPublish(ents); ok && done != nil {
+					select {
+					case <-done:
+					case <-time.After(5 * time.Second):
+						return nil, model.Val{}, "apply-timeout"
+					}
+				}
+				if len(l.conn.Output()) > 0 {
+					return l.conn.TakeReply(5 * time.Second)
+				}
+				if l.conn.Closed() {
+					return nil, model.Val{}, "closed"
+				}
+				if rt.HasFreePanics() {
+					return nil, model.Val{}, "panic"
+				}
 				return nil, model.Val{}, "timeout"
 			}
 		}
@@ -503,6 +556,68 @@ func c14Worker(tb []byte, progress func()) []byte {
 			}
 		}
 		bl.close()
+		a.close()
+	}
+	// restart: the node is restarted after the seed and the first command of a two-command program
+	// (fresh Manager, callback table and handler; nothing is restored but the log), and the second
+	// command arrives BEFORE the old log has been re-applied: its handler is already waiting when
+	// the entries of the previous life go through the apply loop again.  Reply and final state must
+	// equal the standalone run.
+	for pi, prog := range progs {
+		if len(prog) != 2 || pi%t.Of != t.Shard || len(prog[0]) == 0 || len(prog[1]) == 0 {
+			continue
+		}
+		if pi%16 == 0 {
+			progress()
+		}
+		res.Programs++
+		l1 := newLoop()
+		a := newAlone()
+		okSeed := true
+		for _, c := range append(append([][]string{}, c14Seed...), prog[0]) {
+			_, _, sa := a.exec(h.B(c...))
+			_, _, sl := l1.exec(h.B(c...))
+			if sa != "ok" || sl != "ok" {
+				okSeed = false
+			}
+		}
+		old := l1.log
+		l1.close()
+		name := strings.ToLower(prog[0][0]) + "+restart+" + strings.ToLower(prog[1][0])
+		add := func(kind, detail string) {
+			shape := "restart:" + c14Shape(prog[1], tmplOf[pi])
+			k := kind + "|" + name + "|" + shape
+			if seen[k] {
+				return
+			}
+			seen[k] = true
+			res.Viol = append(res.Viol, c14Viol{Kind: kind, Cmd: name, Shape: shape, Detail: detail, Program: prog})
+		}
+		if okSeed && len(rt.TakeFreePanics()) == 0 {
+			l2 := newLoop()
+			_, want, sa := a.exec(h.B(prog[1]...))
+			_, got, sl := l2.execDuringReplay(old, h.B(prog[1]...))
+			res.Commands++
+			if ps := rt.TakeFreePanics(); len(ps) > 0 {
+				add("panic", fmt.Sprintf("restart %q: panic %s in %s (cluster node goroutine)", prog, ps[0].Value, ps[0].Func))
+			} else if sa != "ok" {
+				// the standalone server gave no reply: nothing to compare with
+			} else if sl != "ok" {
+				add("cluster-restart", fmt.Sprintf("restart %q: %q sent to the restarted node while its log of %d entries is being re-applied: %s (standalone: %s)", prog, prog[1], len(old), sl, want))
+			} else {
+				if !sameReply(strings.ToLower(prog[1][0]), want, got) {
+					add("reply-differs", fmt.Sprintf("restart %q: %q sent to the restarted node while its log of %d entries is being re-applied replies %s, standalone %s", prog, prog[1], len(old), got, want))
+				}
+				ca := h.CanonOf(a.mgr.CurrentDB.VerifDump())
+				cl := h.CanonOf(l2.mgr.CurrentDB.VerifDump())
+				if d := model.DiffCanon(ca, cl, 2000); d != "" {
+					add("state-differs", fmt.Sprintf("restart %q: after re-applying the log and %q the keyspaces differ (model=standalone, implementation=restarted node): %s", prog, prog[1], d))
+				} else {
+					res.Distinct++
+				}
+			}
+			l2.close()
+		}
 		a.close()
 	}
 	b, _ := json.Marshal(res)
